@@ -102,7 +102,8 @@ def histories(draw):
             sheet = draw(st.sampled_from(SHEETS)) if path.endswith("xlsx") else None
             nm = name
             if draw(st.integers(0, 5)) == 0:
-                nm = draw(st.sampled_from(["cel", "Kid"]))      # a cells / a child space of A
+                # a cells / a child space of A; a cells / a child space of its sub B
+                nm = draw(st.sampled_from(["cel", "Kid", "bcel", "BKid"]))
             ops.append(["new_pandas", mi, where, nm, path, vi, sheet])
         elif k <= 6:
             ops.append(["assign", mi, where, name, vi])          # may be a spec-carrying value or a fresh one
@@ -122,7 +123,13 @@ def histories(draw):
         elif k == 14:
             ops.append(["del_space", mi, draw(st.sampled_from(["B", "C"]))])
         elif k == 15:
-            ops.append(["close", mi])
+            if draw(st.integers(0, 2)) == 0:
+                ops.append(["close", mi])
+            elif draw(st.booleans()):
+                # a new space created with a reference to a value (that may carry a spec and be bound elsewhere)
+                ops.append(["new_space_refs", mi, vi, name])
+            else:
+                ops.append(["copy_space", mi, draw(st.sampled_from(["A", "C"]))])
         elif k == 22:
             # the file of a spec is moved (to a free place, to a claimed one, from relative to absolute)
             ops.append(["set_path", mi, draw(st.sampled_from([0, 1, 2, 3])),
@@ -185,7 +192,9 @@ class ModelState:
         A = self.m.new_space("A")
         A.new_cells("cel", "lambda: 1")
         A.new_space("Kid")
-        self.m.new_space("B", bases=[A])
+        B = self.m.new_space("B", bases=[A])
+        B.new_cells("bcel", "lambda: 2")        # members of the sub only: names the base cannot take either
+        B.new_space("BKid")
         self.m.new_space("C")
         self.values = {}        # value index -> object (per model: models do not share objects here)
         self.carrying = {}      # id(value) -> (value, path, sheet) for values that got a spec and still should have it
@@ -498,6 +507,25 @@ def _run(case, out, tmp):
                     delattr(m, op[2])
             except Exception as exc:
                 return out.fail("del-space-raised", "%r raised %r" % (op, exc), i)
+        elif k == "new_space_refs":
+            v = st_.value(op[2])
+            if v is None or (op[2] >= 10 and id(v) not in st_.carrying):
+                continue        # (see "assign")
+            try:
+                m.new_space("N%d" % i, refs={op[3]: v})
+            except Exception as exc:
+                return out.fail("new-space-raised", "%r raised %r" % (op, exc), i)
+        elif k == "copy_space":
+            if op[2] not in m.spaces:
+                continue
+            try:
+                m.spaces[op[2]].copy(m, "Cp%d" % i)
+            except Exception as exc:
+                # refused (e.g. a member's name is taken at model level): nothing stays behind
+                out.count("rejected_copies")
+                r = diff(before, model_desc(m))
+                if r:
+                    return out.fail("rejected-copy-residue", "%r raised %r but left a change: %s" % (op, exc, r), i)
         elif k == "close":
             m.close()
             st_.open = False
